@@ -230,11 +230,20 @@ def names_loaded(n: ast.AST) -> set:
     return {x.id for x in ast.walk(n) if isinstance(x, ast.Name) and isinstance(x.ctx, ast.Load)}
 
 
+_UNPARSE: Dict[int, Tuple[ast.AST, str]] = {}
+
+
 def unparse(n: ast.AST) -> str:
+    k = id(n)
+    hit = _UNPARSE.get(k)
+    if hit is not None and hit[0] is n:
+        return hit[1]
     try:
-        return ast.unparse(n)
+        s = ast.unparse(n)
     except Exception:
-        return "<?>"
+        s = "<?>"
+    _UNPARSE[k] = (n, s)
+    return s
 
 
 def body_wo_doc(fn: ast.FunctionDef) -> List[ast.stmt]:
